@@ -173,7 +173,9 @@ def replace_wire_fast(orig_wire, new_src, new_dst, src_nets, dst_nets, block=Non
                 del dst_nets[arg]
         if len(net_.dests) == 1:
             del src_nets[net_.dests[0]]
-        block.logic.remove(net_)
+        # two dest-less nets (memory write ports) that an earlier replacement made
+        # identical are one element of the logic set, though listed twice in dst_nets
+        block.logic.discard(net_)
 
     def add_net(net_):
         for arg in set(net_.args):
